@@ -62,6 +62,16 @@ def render_thermochem(g, pres=None, indent=12):
             return num(T / how[1]) if len(how) > 1 else num(T)
         return '%s %s' % (num(T / how[2]), how[1])
 
+    def bare(x):
+        # spellings of a bare number that PyYAML hands over as TEXT
+        t = num(x)
+        st = pres.get('numeral')
+        if st == 'quoted':
+            return "'%s'" % t
+        if st == 'nolead' and (t.startswith('0.') or t.startswith('-0.')):
+            return t.replace('0.', '.', 1)
+        return t
+
     tp = pres.get('T', ('unit', 'K', 1.0))
     if not (pres.get('omit_T_ref') and g['T_ref'] == 298.15):
         lines.append('%sT_ref: %s' % (pad, temp(g['T_ref'], tp)))
@@ -72,7 +82,7 @@ def render_thermochem(g, pres=None, indent=12):
         else:
             dim = g['H'] * R_SI * g['T_ref']  # J/mol
             if hp[0] == 'bare':
-                lines.append('%sH_ref: %s' % (pad, num(dim / hp[1])))
+                lines.append('%sH_ref: %s' % (pad, bare(dim / hp[1])))
             else:
                 lines.append('%sH_ref: %s %s' % (pad, num(dim / hp[2]),
                                                  hp[1]))
@@ -83,7 +93,7 @@ def render_thermochem(g, pres=None, indent=12):
         else:
             dim = g['S'] * R_SI
             if sp[0] == 'bare':
-                lines.append('%sS_ref: %s' % (pad, num(dim / sp[1])))
+                lines.append('%sS_ref: %s' % (pad, bare(dim / sp[1])))
             else:
                 lines.append('%sS_ref: %s %s' % (pad, num(dim / sp[2]),
                                                  sp[1]))
@@ -96,7 +106,7 @@ def render_thermochem(g, pres=None, indent=12):
             if cp[0] == 'nd':
                 vt = num(v)
             elif cp[0] == 'bare':
-                vt = num(v * R_SI / cp[1])
+                vt = bare(v * R_SI / cp[1])
             else:
                 vt = '%s %s' % (num(v * R_SI / cp[2]), cp[1])
             lines.append('%s    - [%s, %s]' % (pad, temp(T, tp), vt))
